@@ -17,7 +17,18 @@ import (
 	"time"
 )
 
+// Handler runs one task inside a worker. progress() resets the hang watchdog.
 type Handler func(task []byte, progress func()) []byte
+
+// Note (worker side) resets the hang watchdog and records payload; the last payload noted
+// before a crash is reported in Crash.Last (e.g. the index of the input in flight).
+func Note(payload []byte) {
+	if noteFn != nil {
+		noteFn(payload)
+	}
+}
+
+var noteFn func([]byte)
 
 var handlers = map[string]Handler{}
 
@@ -67,6 +78,7 @@ func WorkerMain() {
 		if _, err := io.ReadFull(in, task); err != nil {
 			os.Exit(0)
 		}
+		noteFn = func(b []byte) { send('P', b) }
 		res := h(task, func() { send('P', nil) })
 		send('R', res)
 	}
@@ -75,6 +87,7 @@ func WorkerMain() {
 type Crash struct {
 	Kind   string // died | hang
 	Detail string // tail of the worker's stderr
+	Last   []byte // payload of the last progress frame of the task
 }
 
 type Pool struct {
@@ -141,6 +154,7 @@ func (w *worker) kill() {
 
 // run sends one task and waits for its result.
 func (w *worker) run(task []byte, timeout time.Duration) ([]byte, *Crash) {
+	var last []byte
 	hdr := make([]byte, 4)
 	binary.LittleEndian.PutUint32(hdr, uint32(len(task)))
 	if _, err := w.in.Write(append(hdr, task...)); err != nil {
@@ -151,7 +165,7 @@ func (w *worker) run(task []byte, timeout time.Duration) ([]byte, *Crash) {
 		h := make([]byte, 5)
 		if _, err := io.ReadFull(w.out, h); err != nil {
 			if os.IsTimeout(err) {
-				return nil, &Crash{Kind: "hang", Detail: fmt.Sprintf("no progress for %v", timeout)}
+				return nil, &Crash{Kind: "hang", Detail: fmt.Sprintf("no progress for %v", timeout), Last: last}
 			}
 			// give the process a moment to flush its stderr
 			done := make(chan struct{})
@@ -160,16 +174,19 @@ func (w *worker) run(task []byte, timeout time.Duration) ([]byte, *Crash) {
 			case <-done:
 			case <-time.After(2 * time.Second):
 			}
-			return nil, &Crash{Kind: "died", Detail: tailOf(w.tail.String())}
+			return nil, &Crash{Kind: "died", Detail: tailOf(w.tail.String()), Last: last}
 		}
 		l := binary.LittleEndian.Uint32(h[1:])
 		body := make([]byte, l)
 		w.out.SetReadDeadline(time.Now().Add(timeout))
 		if _, err := io.ReadFull(w.out, body); err != nil {
-			return nil, &Crash{Kind: "died", Detail: tailOf(w.tail.String())}
+			return nil, &Crash{Kind: "died", Detail: tailOf(w.tail.String()), Last: last}
 		}
 		if h[0] == 'R' {
 			return body, nil
+		}
+		if len(body) > 0 {
+			last = body
 		}
 	}
 }
